@@ -241,7 +241,7 @@ pub fn run(outdir: &Path, tier: &str, seed: u64, shards: usize, replay: Option<S
         let v: Value = serde_json::from_str(&std::fs::read_to_string(rp).unwrap()).unwrap();
         programs.push((serde_json::from_value(v["case"]["program"].clone()).unwrap(), v["case"]["expect_ok"].as_bool().unwrap_or(false)));
     } else {
-        for p in crate::c01dir::snake_case_types().into_iter().chain(crate::c01dir::deprecated_subtree()).chain(crate::c01dir::explicit_builtin_scalars()) {
+        for p in crate::c01dir::snake_case_types().into_iter().chain(crate::c01dir::deprecated_subtree()).chain(crate::c01dir::explicit_builtin_scalars()).chain(crate::c01dir::keyword_type_names()) {
             programs.push((p, true));
         }
         for p in crate::c01dir::directed() {
@@ -409,7 +409,7 @@ pub fn run(outdir: &Path, tier: &str, seed: u64, shards: usize, replay: Option<S
     let cs = CaseSet {
         run_module: "RunC02".into(),
         cases,
-        checkers: ["corr_gen", "corr_static", "prop_c02", "known_ident_collision", "known_op_module_clash", "known_default_derive", "known_default_value_rendering"].iter().map(|s| s.to_string()).collect(),
+        checkers: ["corr_gen", "corr_static", "prop_c02", "known_ident_collision", "known_op_module_clash", "known_default_derive", "known_default_value_rendering", "known_keyword_type_name"].iter().map(|s| s.to_string()).collect(),
         extra_imports: vec!["Json".into(), "TypeExpr".into(), "Schema".into(), "Query".into(), "Attrs".into(), "Codegen".into(), "RunGen".into()],
         preludes: vec![],
     };
